@@ -1605,6 +1605,14 @@ def _thread_local_is_scoped(m, name: str) -> str:
                     if adds is None:
                         continue
                     nxt = body[i + 1] if i + 1 < len(body) else None
+                    if nxt is None and isinstance(parent, ast.If) and fld == "body" and len(body) == 1 and not parent.orelse:
+                        # ``if token is not None: marks.add(token)`` — the statement after the ``if`` is what follows the addition
+                        for gp in ast.walk(f):
+                            for gfld in ("body", "orelse", "finalbody"):
+                                gbody = getattr(gp, gfld, None)
+                                if isinstance(gbody, list) and parent in gbody:
+                                    j_ = gbody.index(parent)
+                                    nxt = gbody[j_ + 1] if j_ + 1 < len(gbody) else None
                     undone = isinstance(nxt, ast.Try) and any(
                         (isinstance(x, ast.Call) and isinstance(x.func, ast.Attribute) and x.func.attr in _REMOVERS and ast.unparse(x.func.value) == adds)
                         or (isinstance(x, ast.Delete) and any(isinstance(t, ast.Subscript) and ast.unparse(t.value) == adds for t in x.targets))
@@ -1917,6 +1925,12 @@ def _orders_attr(fn, attrs: Set[str], selfname: str = "self") -> List[tuple]:
                     return True
                 if isinstance(v, ast.Lambda) and isinstance(v.body, ast.Call) and isinstance(v.body.func, ast.Name) and v.body.func.id in ("repr", "str"):
                     return True
+                # a tuple of texts — ``(type(k).__name__, repr(k))`` — orders any two keys as well
+                if isinstance(v, ast.Lambda) and isinstance(v.body, ast.Tuple) and v.body.elts and all(
+                        (isinstance(e_, ast.Call) and isinstance(e_.func, ast.Name) and e_.func.id in ("repr", "str"))
+                        or (isinstance(e_, ast.Attribute) and e_.attr in ("__name__", "__qualname__") and isinstance(e_.value, ast.Call) and isinstance(e_.value.func, ast.Name) and e_.value.func.id == "type")
+                        for e_ in v.body.elts):
+                    return True
         return False
     for x in astu.walk_no_nested(fn):
         if isinstance(x, ast.Call):
@@ -2171,6 +2185,10 @@ def rule_OH(run: Run) -> RuleResult:
             txt = ast.unparse(a_.annotation) if a_.annotation is not None else ""
             if txt.split("[")[0].split(".")[-1] in ("Type", "type") or txt in ("Interface", "'Interface'", "Implementation"):
                 class_params.add(a_.arg)
+        if hfn.name in ("__get__", "__set_name__", "__init_subclass__", "__class_getitem__"):
+            # the descriptor / class-creation protocols hand in the owning class
+            pn_ = [a_.arg for a_ in hfn.args.posonlyargs + hfn.args.args]
+            class_params |= set(pn_[2:3] if hfn.name == "__get__" else pn_[1:2] if hfn.name == "__set_name__" else pn_[:1])
         for x in astu.walk_no_nested(hfn):
             if not (isinstance(x, ast.Attribute) and x.attr in ("__name__", "__qualname__") and isinstance(x.ctx, ast.Load)):
                 continue
